@@ -74,6 +74,7 @@ def run_property(pid, tier="quick", seed=0, update=False):
             undecided.append("%s: %s" % (u, r.reason))
             continue
         all_names = [o.name for o in r.obligations]
+        any_failure = bool(r.failed or r.scaffold_failures)
         if u in fn_filter:
             # only the functions this property depends on (the unit's other functions belong to other properties)
             keep = fn_filter[u]
@@ -118,7 +119,7 @@ def run_property(pid, tier="quick", seed=0, update=False):
                 backends[o.name] = {"backend": "verus/z3", "fn_smt_ms": t.get("smt_ms") if t else None}
         for s in r.scaffold_failures:
             scaffold.append("%s: %s" % (u, s))
-        if r.status == "failed" and not r.failed and not r.scaffold_failures:
+        if r.status == "failed" and not any_failure:
             undecided.append("%s: verification failed without a mappable diagnostic: %s" % (u, r.reason))
         if r.status == "verified":
             if r.twin_ok is False:
